@@ -191,7 +191,10 @@ def main():
             vals = [None if v is None else float(v) for v in c["vals"]]
             data = pd.Series(np.array([np.nan if v is None else v for v in vals], dtype="float64"))
             block, out = writer.make_definitions(data, c["no_nulls"], c["version"])
-            return ["ok", bytes(block).hex(), len(out)]
+            # the packed not-null mask as the writer's own boolean packing produces it (parameter of the regenerated model)
+            from fastparquet import parquet_thrift
+            packed = bytes(writer.encode_plain(data.notnull(), parquet_thrift.SchemaElement(type=parquet_thrift.Type.BOOLEAN)))
+            return ["ok", bytes(block).hex(), len(out), packed.hex()]
         if fn == "page_v1_dict":
             # the Python CALLER of the native decoders: core.read_data_page on a foreign (not self-made) v1 data page
             # holding dictionary indices of width w (and, for an OPTIONAL column, width-1 definition levels)
